@@ -168,6 +168,94 @@ func (g *graph) evictionScenarios(texts []string) [][]*Edge {
 	return out
 }
 
+func wrongHash(t, h string) AReq { return AReq{Text: t, Ext: "pq", Ver: "1", Hash: h, Mal: none} }
+
+// walk follows the given requests from a node as far as the graph has them.
+func (g *graph) walk(path []*Edge, cur string, reqs ...AReq) ([]*Edge, string) {
+	for _, r := range reqs {
+		e := g.step(cur, r)
+		if e == nil {
+			break
+		}
+		path = append(path, e)
+		cur = e.to
+	}
+	return path, cur
+}
+
+// twinScenarios: for every initial state (map, every LRU capacity) and every
+// base / near-twin pair of the alphabet, the histories
+//
+//	S1  register(base); twin + hash(base) -> mismatch; hash-only(hash(base)) -> base;
+//	    base + hash(twin) -> mismatch; hash-only(hash(twin)) -> not found;
+//	    register(twin); hash-only(hash(twin)) -> twin; hash-only(hash(base));
+//	    twin + hash(base) again (the twin is a registered text now) -> mismatch;
+//	    base + upper-case hex of its own hash; hash-only(upper-case hex); sweep
+//	S2  twin + hash(base) first (nothing registered) -> mismatch; hash-only(hash(base))
+//	    -> not found; register(base); hash-only(hash(base)) -> base; sweep
+//
+// with the outcomes the graph prescribes (every step is an edge of the graph):
+// each twin sent with the digest of the other is rejected, executes nothing,
+// registers nothing, and afterwards each digest still resolves to its own pre-image.
+func (g *graph) twinScenarios(texts, alts []string) [][]*Edge {
+	var out [][]*Edge
+	for _, init := range g.inits {
+		for _, tw := range texts {
+			if !isTwin(tw) {
+				continue
+			}
+			b := twinBase(tw)
+			hb, ht := "h:"+b, "h:"+tw
+			s1 := []AReq{register(b), wrongHash(tw, hb), hashOnly(hb), wrongHash(b, ht), hashOnly(ht), register(tw), hashOnly(ht), hashOnly(hb), wrongHash(tw, hb), hashOnly(hb), hashOnly(ht)}
+			for _, a := range alts {
+				if a == "u:"+b {
+					s1 = append(s1, wrongHash(b, a), hashOnly(a), wrongHash(tw, a), hashOnly(hb))
+				}
+			}
+			p, _ := g.walk(nil, init, s1...)
+			if len(p) == len(s1) {
+				out = append(out, g.withSweep(p, texts))
+			}
+			s2 := []AReq{wrongHash(tw, hb), hashOnly(hb), register(b), hashOnly(hb), wrongHash(b, ht), hashOnly(ht)}
+			p, _ = g.walk(nil, init, s2...)
+			if len(p) == len(s2) {
+				out = append(out, g.withSweep(p, texts))
+			}
+		}
+	}
+	return out
+}
+
+// poisonScenarios: a parsed-document cache is configured alongside APQ (as
+// NewDefaultServer does). For every ordered pair of distinct valid texts (t, u)
+// and every initial state: a request carrying t with the hash of u (rejected)
+// comes FIRST, then requests for that hash - the rightful registration of u and
+// hash-only requests - which must execute exactly u; and the same with u
+// registered before the wrong-hash request.
+func (g *graph) poisonScenarios(valid []string) [][]*Edge {
+	var out [][]*Edge
+	for _, init := range g.inits {
+		for _, t := range valid {
+			for _, u := range valid {
+				if t == u {
+					continue
+				}
+				hu := "h:" + u
+				for _, sc := range [][]AReq{
+					{wrongHash(t, hu), hashOnly(hu), register(u), hashOnly(hu), wrongHash(t, hu), hashOnly(hu), register(t), hashOnly(hu), hashOnly("h:" + t)},
+					{register(u), wrongHash(t, hu), hashOnly(hu), register(u), hashOnly(hu)},
+				} {
+					p, _ := g.walk(nil, init, sc...)
+					if len(p) == len(sc) {
+						out = append(out, g.withSweep(p, valid))
+					}
+				}
+			}
+		}
+	}
+	return out
+}
+
 // replayStep is one request of a history / replay artefact.
 type replayStep struct {
 	Req   AReq    `json:"req"`
@@ -182,6 +270,8 @@ type replayDoc struct {
 	Rig       rigOpts           `json:"server"`
 	Texts     map[string]string `json:"texts"`
 	Hashes    map[string]string `json:"hashes"`
+	Sigs      map[string]string `json:"root_fields_selected,omitempty"`
+	Twin      string            `json:"near_twin_kind,omitempty"`
 	Steps     []replayStep      `json:"steps"`
 	FailAt    int               `json:"leaves_property_at_step"`
 	Rules     map[string]bool   `json:"rules_at_that_step,omitempty"`
@@ -220,8 +310,16 @@ func (r *reporter) drift(key, detail string) {
 // the rest of the tour is still sent. The whole observed history is returned
 // for the property-level validation.
 func (rep *reporter) replayPath(id string, path []*Edge, texts, valid, wrong []string, ro rigOpts, method string, seed int64) (*history, error) {
+	return rep.replayPathTwin(id, path, texts, valid, wrong, ro, method, seed, "")
+}
+
+// replayPathTwin: like replayPath with the near-twin kind fixed ("" = drawn from the seed).
+func (rep *reporter) replayPathTwin(id string, path []*Edge, texts, valid, wrong []string, ro rigOpts, method string, seed int64, twinKind string) (*history, error) {
 	rnd := rand.New(rand.NewSource(seed))
-	cc := newConc(rnd, texts, valid, wrong, method)
+	if twinKind == "" {
+		twinKind = twinKinds[rnd.Intn(len(twinKinds))]
+	}
+	cc := newConcTwin(rnd, texts, valid, wrong, method, twinKind)
 	rg, err := newRig(ro)
 	if err != nil {
 		return nil, err
@@ -297,12 +395,15 @@ func runReplayFile(file string) {
 		runLReplay(b) // a scenario of the LRU phase (lru.go)
 	}
 	doc := env.Scenario
-	cc := &conc{Text: doc.Texts, Hash: doc.Hashes, Field: map[string]string{}, rText: map[string]string{}, rHash: map[string]string{}}
+	cc := &conc{Text: doc.Texts, Hash: doc.Hashes, Field: map[string]string{}, Sig: map[string]string{}, rText: map[string]string{}, rHash: map[string]string{}, Twin: doc.Twin}
 	for a, s := range doc.Texts {
 		cc.rText[s] = a
-		if f, ok := fieldOf[a]; ok {
-			cc.Field[a] = f
+		if f, ok := fieldOf[twinBase(a)]; ok {
+			cc.Field[a], cc.Sig[a] = f, f
 		}
+	}
+	for a, sg := range doc.Sigs {
+		cc.Sig[a] = sg
 	}
 	for a, s := range doc.Hashes {
 		cc.rHash[s] = a
